@@ -67,10 +67,12 @@ def scenario(which, rar):
         return outs[0].value[0]
     if rar:
         rarp = {"start_iter": z3.Int("start_iter"), "update_every": z3.Int("update_every"),
-                "selected_sample_size_times": sel, "selected_sample_size_omega": sel,
+                # the store under examination uses `sel`; the other store's selected size is a different number
+                "selected_sample_size_times": sel if "temporal" in which else z3.Int("selected_other"),
+                "selected_sample_size_omega": sel if "temporal" not in which else z3.Int("selected_other"),
                 "sample_size_times": z3.Int("S_t"), "sample_size_omega": z3.Int("S_x")}
         pre += [nstart >= 1, J >= 0, sel >= 1, neff <= n]
-    if which in ("DataGeneratorODE.temporal_batch", "CubicMeshPDENonStatio.temporal_batch"):
+    if which.split("[")[0] in ("DataGeneratorODE.temporal_batch", "CubicMeshPDENonStatio.temporal_batch"):
         st, _ = store("times", (n,))
         p, _ = store("p_times", (n,))
         cls = which.split(".")[0]
@@ -81,7 +83,7 @@ def scenario(which, rar):
             f.update(n=z3.Int("nx"), nb=None, omega_batch_size=z3.Int("bx"), omega_border_batch_size=None, dim=1,
                      min_pts=(0.0,), max_pts=(1.0,), n_start=nstart if rar else z3.Int("nx"), p_omega=None, p_border=None,
                      curr_omega_idx=z3.Int("ix"), curr_omega_border_idx=None, omega=store("omega", (z3.Int("nx"), 1))[0],
-                     omega_border=None, cartesian_product=True)
+                     omega_border=None, cartesian_product=("paired" not in which))
         rec = Rec(cls, f)
         return ex, (lambda: ex.call_method(rec, "temporal_batch")), ("times", n, ()), (neff if rar else n), "curr_time_idx", pre, rec
     if which.startswith("CubicMeshPDEStatio.inside_batch"):
@@ -398,6 +400,7 @@ def _native_monitor(which, nn, bb, ns_user=None):
 
 
 CONSUMERS = [("DataGeneratorODE.temporal_batch", (False, True)), ("CubicMeshPDENonStatio.temporal_batch", (False, True)),
+             ("CubicMeshPDENonStatio.temporal_batch[paired]", (False,)),
              ("CubicMeshPDEStatio.inside_batch[dim=1]", (False, True)), ("CubicMeshPDEStatio.inside_batch[dim=2]", (False,)),
              ("CubicMeshPDEStatio.border_batch", (False,)), ("DataGeneratorObservations.obs_batch", (False,)),
              ("DataGeneratorParameter.param_batch[a]", (False,)), ("DataGeneratorParameter.param_batch[b]", (False,))]
